@@ -18,11 +18,17 @@ def nats? (s : String) : Option (List Nat) := (ints? s).map (fun l => l.map Int.
 def wsum (x : List Int) : Int := ((List.range x.length).zip x).foldl (fun acc p => acc + ((p.1 : Int) + 1) * p.2) 0
 
 /-- the probe location function of `harness/gridprobes.py`: markers in the first element of the driving column
-    select the failure modes, otherwise an encoding of the three columns -/
+    select the failure modes (91–95, 98, 99: exceptions of various shapes — only the class name is
+    observable here, the error value is abstract in the model), otherwise an encoding of the three columns -/
 def probe (drive : List Int) (a b : List Int) : Except String (List Int) :=
   match drive.head? with
   | some 99 => .error "ProbeError"
   | some 98 => .error "ProbeError2"
+  | some 95 => .error "AssertionError"
+  | some 94 => .error "ProbeError"
+  | some 93 => .error "ProbeError2"
+  | some 92 => .error "StrRaises"
+  | some 91 => .error "ProbeError"
   | some 97 => .ok (List.replicate (drive.length + 1) 0)
   | some 96 => .ok [7]
   | _ => .ok (drive.map (fun v => 1000000 * v + 1000 * wsum a + wsum b))
